@@ -81,7 +81,16 @@ class Rule_AM07(BaseRule):
         # reflective of the others, that will be caught when that segment
         # is processed. We'll know if we're in a set based on whether there
         # is more than one selectable. i.e. Just take the first selectable.
-        return self.__resolve_selectable(query.selectables[0], query)
+        # NOTE: A CTE can refer to itself (or to a CTE which refers back to
+        # it). Such a wildcard can't be resolved, and following the reference
+        # again would never terminate.
+        if id(query) in self._resolving:
+            return 0, False
+        self._resolving.add(id(query))
+        try:
+            return self.__resolve_selectable(query.selectables[0], query)
+        finally:
+            self._resolving.discard(id(query))
 
     def __resolve_selectable_wildcard(
         self, wildcard: WildcardInfo, selectable: Selectable, root_query: Query
@@ -218,6 +227,8 @@ class Rule_AM07(BaseRule):
                 break
 
         query: Query = Query.from_segment(root, dialect=context.dialect)
+        # The queries currently being resolved (see __resolve_wild_query).
+        self._resolving: set[int] = set()
         set_segment_select_sizes, resolve_wildcard = self._get_select_target_counts(
             query
         )
